@@ -715,6 +715,13 @@ def paired(factory, key=str):
         if key(x) != key(y):
             raise AssertionError('interleaved iterations disagree at item %d: %s / %s' % (n, key(x), key(y)))
         n += 1
+        # an item that was handed out belongs to the caller: the second iteration's copy is moved in place before
+        # the next one is pulled (a generator that keeps walking the very object it yielded - seed C10-r10-1 - then
+        # leaves the sequence; the first iteration's items, untouched, are what the consumer sees)
+        try:
+            disturb(y)
+        except Exception:
+            pass
         yield x
 
 
@@ -802,6 +809,39 @@ def _scribble(r, depth=0):
     elif isinstance(r, tuple) and depth < 3:
         for x in r:
             _scribble(x, depth + 1)
+
+
+def make_set(blocks):
+    """an IPSet holding the blocks [(ver, value, prefixlen), ...] - which IPSet keeps as they are - built along one
+    of four routes chosen by a stable hash of the blocks: the constructor; add() one block at a time with the two
+    families INTERLEAVED (v4, v6, v4, ...: the internal dict is then not grouped by family - seed C12-r10-1 grouped
+    it with itertools.groupby in __getstate__ and lost all but the last run of each family); update() of the second
+    half into the first; the union of two sets.  A set is what it contains, whatever its history."""
+    import zlib
+    from netaddr import IPSet, IPNetwork
+    nets = [IPNetwork((v, p), version=ver) for ver, v, p in blocks]
+    route = zlib.crc32(repr(sorted(blocks)).encode()) % 4 if len(nets) > 1 else 0
+    COUNTS['object/ipset-route-%d' % route] += 1
+    if route == 0:
+        return IPSet(nets)
+    if route == 1:
+        v4 = [n for n in nets if n.version == 4]
+        v6 = [n for n in nets if n.version == 6]
+        order = []
+        while v4 or v6:
+            if v4:
+                order.append(v4.pop())
+            if v6:
+                order.append(v6.pop())
+        s = IPSet()
+        for n in order:
+            s.add(n)
+        return s
+    if route == 2:
+        s = IPSet(nets[::2])
+        s.update(nets[1::2])
+        return s
+    return IPSet(nets[::2]) | IPSet(nets[1::2])
 
 
 def make_range(ver, lo, hi):
